@@ -291,6 +291,10 @@ def check_method(ctx, which, dex, dx, ma, em, ref, wit, shipped=False):
                      {"ins_offset": off, "encoded_payload_offset": poff, "got": None if got is None else type(got).__name__})
             # successors computed by the analysis must use that same payload
             if kind != "fill" and ref.terminators.get(off) is not None:
+                if any(0 <= t < ref.size and t not in ref.offsets for t in ref.terminators[off]):
+                    # a case target INSIDE an instruction (only the misaligned pool produces this): invalid code, which block such a target "starts" is undefined
+                    ctx.count("switches_with_a_target_inside_an_instruction_not_judged")
+                    continue
                 want_s = {t for t in ref.terminators[off] if t in ref.offsets}
                 got_s = {c[2].get_start() for c in blk.childs}
                 if not dontcare(blk) and got_s != want_s:
